@@ -9,6 +9,11 @@
 // cached auth answer is moved by the verif hook NSQD.VerifShiftAuthExpiry in steps of
 // whole 10 s against TTLs that are multiples of 10 s (no observation near an expiry
 // instant); a few cases use a real 1 s TTL and real waiting, with guard bands.
+//
+// HTTP cases: a daemon per startable option combination and per address setting (both
+// HTTP listeners / no --https-address / no --http-address), its state seeded through the
+// in-process API, one request of every route on each listener it has, and the topics,
+// message counts and channels (GetStats) after every request.
 package main
 
 import (
@@ -43,7 +48,9 @@ type CfgIn struct {
 	HasCert     bool   `json:"has_cert"`
 	Policy      string `json:"policy"` // "", "require", "require-verify"
 	NAuthd      int    `json:"n_authd"`
-	Method      string `json:"method"` // get / post (how nsqd queries the auth server)
+	Method      string `json:"method"`             // get / post (how nsqd queries the auth server)
+	NoHTTP      bool   `json:"no_http,omitempty"`  // --http-address "" (no plaintext HTTP listener)
+	NoHTTPS     bool   `json:"no_https,omitempty"` // --https-address "" (no HTTPS listener even with a certificate)
 }
 
 type AuthzIn struct {
@@ -95,9 +102,14 @@ type ConnIn struct {
 }
 
 type ProbeIn struct {
-	Listener string `json:"listener"` // plain, https
-	Kind     string `json:"kind"`     // ping, create, pub, nosuch, stats
-	Topic    string `json:"topic,omitempty"`
+	Listener string `json:"listener"` // plain, https, direct (in-process API: create, pub, create_channel only)
+	// ping info stats nosuch badmethod config_get config_get_unknown config_put config_put_bad debug
+	// create pub mpub delete_topic empty_topic pause_topic unpause_topic
+	// create_channel delete_channel empty_channel pause_channel unpause_channel
+	Kind    string `json:"kind"`
+	Topic   string `json:"topic,omitempty"`
+	Channel string `json:"channel,omitempty"`
+	N       int    `json:"n,omitempty"` // mpub: number of messages; debug: which route
 }
 
 type CaseIn struct {
@@ -124,6 +136,10 @@ func (c CfgIn) coq() string {
 	req := []string{"TlsNotRequired", "TlsRequiredExceptHTTP", "TlsRequired"}[c.TLSRequired]
 	pol := map[string]string{"": "PolNone", "require": "PolRequire", "require-verify": "PolRequireVerify"}[c.Policy]
 	return fmt.Sprintf("(mkCfg %s %s %s %d%%nat)", req, lib.CoqBool(c.HasCert), pol, c.NAuthd)
+}
+
+func (c CfgIn) coqAddrs() string {
+	return fmt.Sprintf("(mkAddrs %s %s)", lib.CoqBool(!c.NoHTTP), lib.CoqBool(!c.NoHTTPS))
 }
 
 func (a AnswerIn) coq() string {
@@ -178,7 +194,11 @@ func (c CmdIn) coq() string {
 }
 
 // ------------------------------------------------------------------ wire encoding
-func be32(n int) []byte { b := make([]byte, 4); binary.BigEndian.PutUint32(b, uint32(int32(n))); return b }
+func be32(n int) []byte {
+	b := make([]byte, 4)
+	binary.BigEndian.PutUint32(b, uint32(int32(n)))
+	return b
+}
 
 const zeroID = "0000000000000000"
 
@@ -386,6 +406,12 @@ func certDir() string {
 func startDaemon(cfg CfgIn, authAddrs []string) (*nsqd.NSQD, *nsqd.Options, error) {
 	opts := nsqdlib.NewOpts(nsqdlib.ScratchDir())
 	opts.TLSRequired = cfg.TLSRequired
+	if cfg.NoHTTP {
+		opts.HTTPAddress = ""
+	}
+	if cfg.NoHTTPS {
+		opts.HTTPSAddress = ""
+	}
 	if cfg.HasCert {
 		opts.TLSCert = filepath.Join(certDir(), "server.pem")
 		opts.TLSKey = filepath.Join(certDir(), "server.key")
@@ -748,7 +774,8 @@ func runConnCase(name string, in CaseIn) result {
 
 	tags := map[string]bool{"kind=conn": true, "profile=" + in.Profile: true,
 		fmt.Sprintf("cfg:tls_required=%d", in.Cfg.TLSRequired): true, "cfg:policy=" + in.Cfg.Policy: true,
-		fmt.Sprintf("cfg:authd=%d", in.Cfg.NAuthd): true, fmt.Sprintf("cfg:cert=%v", in.Cfg.HasCert): true}
+		fmt.Sprintf("cfg:authd=%d", in.Cfg.NAuthd): true, fmt.Sprintf("cfg:cert=%v", in.Cfg.HasCert): true,
+		fmt.Sprintf("cfg:http_addr=%v,https_addr=%v", !in.Cfg.NoHTTP, !in.Cfg.NoHTTPS): true}
 	if in.Cfg.NAuthd > 0 {
 		tags["cfg:method="+in.Cfg.Method] = true
 	}
@@ -928,80 +955,171 @@ func runRealTTL(name string, in CaseIn) result {
 }
 
 // ------------------------------------------------------------------ HTTP cases
+// the /debug routes of newHTTPServer (debugProfile is only ever sent where it must be
+// refused: it profiles the whole process for a second)
+var debugRoutes = [][2]string{
+	{"GET", "/debug/pprof/"}, {"GET", "/debug/pprof/cmdline"}, {"GET", "/debug/pprof/symbol"}, {"POST", "/debug/pprof/symbol"},
+	{"GET", "/debug/pprof/heap"}, {"GET", "/debug/pprof/goroutine"}, {"GET", "/debug/pprof/block"}, {"GET", "/debug/pprof/threadcreate"},
+	{"PUT", "/debug/setblockrate?rate=0"}, {"POST", "/debug/freememory"}, {"GET", "/debug/pprof/profile?seconds=1"},
+}
+
+const debugProfile = 10
+
+// the request of a probe: method, path and query, body; and the judge's hreq
+func (p ProbeIn) request() (method, path, body, coq string) {
+	t, c := url.QueryEscape(p.Topic), url.QueryEscape(p.Channel)
+	tc := "?topic=" + t + "&channel=" + c
+	ct, cc := coqStr(p.Topic), coqStr(p.Channel)
+	switch p.Kind {
+	case "ping":
+		return "GET", "/ping", "", "HPing"
+	case "info":
+		return "GET", "/info", "", "HInfo"
+	case "stats":
+		return "GET", "/stats?format=json", "", "HStats"
+	case "nosuch":
+		return "GET", "/no/such/route", "", "HNoSuch"
+	case "badmethod":
+		return "GET", "/pub?topic=" + t, "", "HBadMethod"
+	case "config_get":
+		return "GET", "/config/nsqlookupd_tcp_addresses", "", "(HConfigGet true)"
+	case "config_get_unknown":
+		return "GET", "/config/no_such_option", "", "(HConfigGet false)"
+	case "config_put":
+		return "PUT", "/config/log_level", "error", "(HConfigPut true)"
+	case "config_put_bad":
+		return "PUT", "/config/max_msg_size", "1", "(HConfigPut false)"
+	case "debug":
+		r := debugRoutes[p.N%len(debugRoutes)]
+		return r[0], r[1], "", "HDebug"
+	case "create":
+		return "POST", "/topic/create?topic=" + t, "", "(HCreateTopic " + ct + ")"
+	case "pub":
+		return "POST", "/pub?topic=" + t, "body", "(HPub " + ct + ")"
+	case "mpub":
+		return "POST", "/mpub?topic=" + t, strings.Repeat("m\n", p.N), fmt.Sprintf("(HMpub %s %d)", ct, p.N)
+	case "delete_topic":
+		return "POST", "/topic/delete?topic=" + t, "", "(HDeleteTopic " + ct + ")"
+	case "empty_topic":
+		return "POST", "/topic/empty?topic=" + t, "", "(HEmptyTopic " + ct + ")"
+	case "pause_topic":
+		return "POST", "/topic/pause?topic=" + t, "", "(HPauseTopic " + ct + " false)"
+	case "unpause_topic":
+		return "POST", "/topic/unpause?topic=" + t, "", "(HPauseTopic " + ct + " true)"
+	case "create_channel":
+		return "POST", "/channel/create" + tc, "", "(HCreateChannel " + ct + " " + cc + ")"
+	case "delete_channel":
+		return "POST", "/channel/delete" + tc, "", "(HDeleteChannel " + ct + " " + cc + ")"
+	case "empty_channel":
+		return "POST", "/channel/empty" + tc, "", "(HEmptyChannel " + ct + " " + cc + ")"
+	case "pause_channel":
+		return "POST", "/channel/pause" + tc, "", "(HPauseChannel " + ct + " " + cc + " false)"
+	case "unpause_channel":
+		return "POST", "/channel/unpause" + tc, "", "(HPauseChannel " + ct + " " + cc + " true)"
+	}
+	lib.Fatalf("unknown probe kind %q", p.Kind)
+	return
+}
+
+// the listeners a daemon reports
+func listeners(n *nsqd.NSQD) (plain, https bool) {
+	if a, ok := n.RealHTTPAddr().(*net.TCPAddr); ok && a.Port != 0 {
+		plain = true
+	}
+	return plain, n.RealHTTPSAddr().Port != 0
+}
+
 func runHTTPCase(name string, in CaseIn) result {
 	n, opts, err := startDaemon(in.Cfg, nil)
 	if err != nil {
 		lib.Fatalf("case %s: daemon did not start: %v", name, err)
 	}
 	defer stopDaemon(n, opts)
+	hasPlain, hasHTTPS := listeners(n)
 	plain := &http.Client{Timeout: 10 * time.Second, Transport: &http.Transport{DisableKeepAlives: true}}
-	secure := &http.Client{Timeout: 10 * time.Second, Transport: &http.Transport{DisableKeepAlives: true,
-		TLSClientConfig: &tls.Config{InsecureSkipVerify: true, Certificates: clientCert("ca")}}}
-	tags := map[string]bool{"kind=http": true, fmt.Sprintf("cfg:tls_required=%d", in.Cfg.TLSRequired): true, "cfg:policy=" + in.Cfg.Policy: true}
+	// one connection for the case's HTTPS requests (a handshake per request is what costs)
+	str := &http.Transport{MaxIdleConnsPerHost: 1, TLSClientConfig: &tls.Config{InsecureSkipVerify: true, Certificates: clientCert("ca")}}
+	defer str.CloseIdleConnections()
+	secure := &http.Client{Timeout: 10 * time.Second, Transport: str}
+	tags := map[string]bool{"kind=http": true, "profile=" + in.Profile: true, fmt.Sprintf("cfg:tls_required=%d", in.Cfg.TLSRequired): true, "cfg:policy=" + in.Cfg.Policy: true,
+		fmt.Sprintf("cfg:cert=%v", in.Cfg.HasCert):                                                                                             true,
+		fmt.Sprintf("cfg:http_addr=%v,https_addr=%v", !in.Cfg.NoHTTP, !in.Cfg.NoHTTPS):                                                         true,
+		fmt.Sprintf("daemon:required=%d,policy=%s,plain_listener=%v,https_listener=%v", in.Cfg.TLSRequired, in.Cfg.Policy, hasPlain, hasHTTPS): true}
 	var terms []string
 	var obs []string
 	for _, p := range in.Probes {
-		var base string
-		cl := plain
-		if p.Listener == "https" {
-			if !in.Cfg.HasCert {
-				continue
+		method, path, body, hreq := p.request()
+		status := 0
+		via := "(Via Plain)"
+		switch p.Listener {
+		case "direct":
+			via = "Direct"
+			status = 200
+			switch p.Kind {
+			case "create":
+				n.GetTopic(p.Topic)
+			case "pub":
+				t := n.GetTopic(p.Topic)
+				if err := t.PutMessage(nsqd.NewMessage(t.GenerateID(), []byte("body"))); err != nil {
+					lib.Fatalf("case %s: direct publish: %v", name, err)
+				}
+			case "create_channel":
+				n.GetTopic(p.Topic).GetChannel(p.Channel)
+			default:
+				lib.Fatalf("case %s: no in-process form of %s", name, p.Kind)
 			}
-			base = "https://" + n.RealHTTPSAddr().String()
-			cl = secure
-		} else {
-			base = "http://" + n.RealHTTPAddr().String()
-		}
-		var resp *http.Response
-		var err error
-		kind := ""
-		switch p.Kind {
-		case "ping":
-			resp, err = cl.Get(base + "/ping")
-			kind = "PPing"
-		case "stats":
-			resp, err = cl.Get(base + "/stats?format=json")
-			kind = "PStats"
-		case "nosuch":
-			resp, err = cl.Get(base + "/no/such/route")
-			kind = "PNoSuch"
-		case "create":
-			resp, err = cl.Post(base+"/topic/create?topic="+url.QueryEscape(p.Topic), "text/plain", nil)
-			kind = "(PCreateTopic " + coqStr(p.Topic) + ")"
 		default:
-			resp, err = cl.Post(base+"/pub?topic="+url.QueryEscape(p.Topic), "text/plain", strings.NewReader("body"))
-			kind = "(PPub " + coqStr(p.Topic) + ")"
+			cl, base, have := plain, "http://"+n.RealHTTPAddr().String(), hasPlain
+			if p.Listener == "https" {
+				via = "(Via Https)"
+				cl, base, have = secure, "https://"+n.RealHTTPSAddr().String(), hasHTTPS
+			}
+			if have {
+				var rd io.Reader
+				if body != "" {
+					rd = strings.NewReader(body)
+				}
+				req, err := http.NewRequest(method, base+path, rd)
+				if err != nil {
+					lib.Fatalf("case %s: %s %s: %v", name, method, path, err)
+				}
+				resp, err := cl.Do(req)
+				if err != nil {
+					status = 1 // no HTTP answer at all: neither the model's nor the property's
+					obs = append(obs, fmt.Sprintf("%s %s %s: %v", p.Listener, method, path, err))
+				} else {
+					io.Copy(io.Discard, resp.Body)
+					resp.Body.Close()
+					status = resp.StatusCode
+				}
+			}
 		}
-		if err != nil {
-			lib.Fatalf("case %s: %s %s: %v", name, p.Listener, p.Kind, err)
-		}
-		io.Copy(io.Discard, resp.Body)
-		resp.Body.Close()
-		ts, _ := snapshot(n)
-		l := "Plain"
-		if p.Listener == "https" {
-			l = "Https"
-		}
-		terms = append(terms, fmt.Sprintf("(Probe %s %s %d %s)", l, kind, resp.StatusCode, coqTopics(ts)))
-		tags[fmt.Sprintf("http:%s,%s,required=%d->%d", p.Listener, p.Kind, in.Cfg.TLSRequired, resp.StatusCode)] = true
-		obs = append(obs, fmt.Sprintf("%s %s %s -> %d", p.Listener, p.Kind, p.Topic, resp.StatusCode))
+		ts, cs := snapshot(n)
+		terms = append(terms, fmt.Sprintf("(Probe %s %s %d %s %s)", via, hreq, status, coqTopics(ts), coqChans(cs)))
+		tags[fmt.Sprintf("http:%s,%s,required=%d,policy=%s,https_listener=%v->%d", p.Listener, p.Kind, in.Cfg.TLSRequired, in.Cfg.Policy, hasHTTPS, status)] = true
+		obs = append(obs, fmt.Sprintf("%s %s %s -> %d (%d topics, %d channels)", p.Listener, method, path, status, len(ts), len(cs)))
 	}
 	var tl []string
 	for t := range tags {
 		tl = append(tl, t)
 	}
 	sort.Strings(tl)
-	return result{c: &lib.Case{Name: name, Coq: fmt.Sprintf("(J11.Http %s %s)", in.Cfg.coq(), lib.CoqList(terms)), Input: in, Tags: tl, Nontrivial: true, Obs: obs}}
+	coq := fmt.Sprintf("(J11.Http %s %s %s %s %s)", in.Cfg.coq(), in.Cfg.coqAddrs(), lib.CoqBool(hasPlain), lib.CoqBool(hasHTTPS), lib.CoqList(terms))
+	return result{c: &lib.Case{Name: name, Coq: coq, Input: in, Tags: tl, Nontrivial: true, Obs: obs}}
 }
 
 func runStartCase(name string, in CaseIn) result {
 	n, opts, err := startDaemon(in.Cfg, nil)
 	started := err == nil
+	hasPlain, hasHTTPS := false, false
 	if started {
+		hasPlain, hasHTTPS = listeners(n)
 		stopDaemon(n, opts)
 	}
-	return result{c: &lib.Case{Name: name, Coq: fmt.Sprintf("(J11.Start %s %s)", in.Cfg.coq(), lib.CoqBool(started)), Input: in,
-		Tags: []string{"kind=start", fmt.Sprintf("start:required=%d,cert=%v,policy=%s->%v", in.Cfg.TLSRequired, in.Cfg.HasCert, in.Cfg.Policy, started)}, Nontrivial: true}}
+	coq := fmt.Sprintf("(J11.Start %s %s %s %s %s)", in.Cfg.coq(), in.Cfg.coqAddrs(), lib.CoqBool(started), lib.CoqBool(hasPlain), lib.CoqBool(hasHTTPS))
+	return result{c: &lib.Case{Name: name, Coq: coq, Input: in,
+		Tags: []string{"kind=start", fmt.Sprintf("start:required=%d,cert=%v,policy=%s,http_addr=%v,https_addr=%v->started=%v,plain=%v,https=%v",
+			in.Cfg.TLSRequired, in.Cfg.HasCert, in.Cfg.Policy, !in.Cfg.NoHTTP, !in.Cfg.NoHTTPS, started, hasPlain, hasHTTPS)}, Nontrivial: true}}
 }
 
 func runCase(name string, in CaseIn) result {
@@ -1122,6 +1240,9 @@ func genCfg(r *lib.Rand, wantTLS, wantAuth int) CfgIn {
 	default:
 		c.NAuthd = []int{0, 1, 1, 1, 2}[r.Intn(5)]
 	}
+	// the HTTP listeners are no part of the TCP gate: any of them may be missing
+	c.NoHTTPS = r.Chance(30)
+	c.NoHTTP = r.Chance(10)
 	return c
 }
 
@@ -1343,22 +1464,141 @@ func genConnCase(r *lib.Rand, k int) CaseIn {
 	}
 }
 
-func genHTTPCase(r *lib.Rand, k int) CaseIn {
-	cfg := CfgIn{TLSRequired: k % 3, Method: "get"}
-	cfg.HasCert = cfg.TLSRequired != 0 || r.Chance(70)
-	if cfg.HasCert && r.Chance(30) {
-		cfg.Policy = pickS(r, []string{"require", "require-verify"})
-	}
-	var ps []ProbeIn
-	for i, m := 0, 3+r.Intn(5); i < m; i++ {
-		p := ProbeIn{Listener: "plain", Kind: pickS(r, []string{"ping", "create", "pub", "nosuch", "stats", "create", "pub"})}
-		if r.Chance(35) {
-			p.Listener = "https"
+// the option combinations with which nsqd.New starts
+func validCfgs() []CfgIn {
+	var out []CfgIn
+	for req := 0; req < 3; req++ {
+		for _, cert := range []bool{false, true} {
+			for _, pol := range []string{"", "require", "require-verify"} {
+				if !cert && (req != 0 || pol != "") {
+					continue
+				}
+				out = append(out, CfgIn{TLSRequired: req, HasCert: cert, Policy: pol, Method: "get"})
+			}
 		}
-		if p.Kind == "create" || p.Kind == "pub" {
-			p.Topic = pickS(r, topics)
-			if r.Chance(10) {
-				p.Topic = "bad$"
+	}
+	return out
+}
+
+// plaintext HTTP must be refused under this configuration
+func mustRefusePlain(c CfgIn) bool {
+	return c.TLSRequired == 2 || (c.TLSRequired == 0 && c.Policy != "")
+}
+
+// one request of every route (and the router's 404 / 405), in an order in which a serving
+// listener goes through the 200, 400 and 404 paths of the handlers
+func sweep(listener string, profile bool) []ProbeIn {
+	ps := []ProbeIn{
+		{Kind: "ping"}, {Kind: "info"}, {Kind: "stats"}, {Kind: "nosuch"}, {Kind: "badmethod", Topic: "tA"},
+		{Kind: "config_get"}, {Kind: "config_get_unknown"}, {Kind: "config_put"}, {Kind: "config_put_bad"},
+	}
+	for i := range debugRoutes {
+		if i != debugProfile || profile {
+			ps = append(ps, ProbeIn{Kind: "debug", N: i})
+		}
+	}
+	ps = append(ps,
+		ProbeIn{Kind: "create", Topic: "tC.x"}, ProbeIn{Kind: "create", Topic: "bad$"},
+		ProbeIn{Kind: "pub", Topic: "tA"}, ProbeIn{Kind: "pub", Topic: "t-1"}, ProbeIn{Kind: "pub", Topic: "bad$"},
+		ProbeIn{Kind: "mpub", Topic: "tA", N: 3}, ProbeIn{Kind: "mpub", Topic: "tD", N: 2}, ProbeIn{Kind: "mpub", Topic: strings.Repeat("a", 65), N: 1},
+		ProbeIn{Kind: "create_channel", Topic: "tA", Channel: "y"}, ProbeIn{Kind: "create_channel", Topic: "tZ", Channel: "x"},
+		ProbeIn{Kind: "create_channel", Topic: "tA", Channel: "bad$"}, ProbeIn{Kind: "create_channel", Topic: "bad$", Channel: "x"},
+		ProbeIn{Kind: "pause_topic", Topic: "tA"}, ProbeIn{Kind: "unpause_topic", Topic: "tA"}, ProbeIn{Kind: "pause_topic", Topic: "nope"},
+		ProbeIn{Kind: "pause_channel", Topic: "tA", Channel: "x"}, ProbeIn{Kind: "unpause_channel", Topic: "tA", Channel: "x"},
+		ProbeIn{Kind: "pause_channel", Topic: "tA", Channel: "nope"}, ProbeIn{Kind: "unpause_channel", Topic: "nope", Channel: "x"},
+		ProbeIn{Kind: "empty_channel", Topic: "tA", Channel: "x"}, ProbeIn{Kind: "empty_channel", Topic: "tA", Channel: "sp@ce"},
+		ProbeIn{Kind: "empty_topic", Topic: "tA"}, ProbeIn{Kind: "empty_topic", Topic: "nope"}, ProbeIn{Kind: "empty_topic", Topic: "bad$"},
+		ProbeIn{Kind: "delete_channel", Topic: "tA", Channel: "x"}, ProbeIn{Kind: "delete_channel", Topic: "tA", Channel: "nope"},
+		ProbeIn{Kind: "delete_topic", Topic: "tB"}, ProbeIn{Kind: "delete_topic", Topic: "nope"}, ProbeIn{Kind: "delete_topic", Topic: "bad$"},
+		ProbeIn{Kind: "stats"})
+	for i := range ps {
+		ps[i].Listener = listener
+	}
+	return ps
+}
+
+// the state a daemon is given before the sweeps, through the in-process API: whatever its
+// listeners refuse, there is something a request could delete, empty or add to
+func seedState() []ProbeIn {
+	return []ProbeIn{
+		{Listener: "direct", Kind: "create", Topic: "tA"}, {Listener: "direct", Kind: "pub", Topic: "tA"},
+		{Listener: "direct", Kind: "create_channel", Topic: "tA", Channel: "x"}, {Listener: "direct", Kind: "create", Topic: "tB"},
+	}
+}
+
+// every startable option combination x {both HTTP listeners, no HTTPS address, no HTTP
+// address}: seed state, every endpoint on the plaintext listener, every endpoint on the
+// TLS listener, then the requests that would change the seeded state on the plaintext
+// listener again.  A listener that does not exist gets three requests.
+func httpMatrix() []CaseIn {
+	var out []CaseIn
+	for _, cfg := range validCfgs() {
+		for _, ad := range [][2]bool{{false, false}, {false, true}, {true, false}} {
+			c := cfg
+			c.NoHTTP, c.NoHTTPS = ad[0], ad[1]
+			ps := seedState()
+			if c.NoHTTP {
+				ps = append(ps, sweep("plain", false)[:3]...)
+			} else {
+				ps = append(ps, sweep("plain", mustRefusePlain(c))...)
+			}
+			if c.NoHTTPS || !c.HasCert {
+				ps = append(ps, sweep("https", false)[:3]...)
+			} else {
+				ps = append(ps, seedState()...)
+				ps = append(ps, sweep("https", false)...)
+			}
+			if !c.NoHTTP {
+				ps = append(ps, seedState()...)
+				ps = append(ps, ProbeIn{Listener: "plain", Kind: "delete_channel", Topic: "tA", Channel: "x"},
+					ProbeIn{Listener: "plain", Kind: "delete_topic", Topic: "tB"}, ProbeIn{Listener: "plain", Kind: "pub", Topic: "tA"})
+			}
+			out = append(out, CaseIn{Kind: "http", Profile: "http-matrix", Cfg: c, Probes: ps})
+		}
+	}
+	return out
+}
+
+var probeKinds = []string{"ping", "info", "stats", "nosuch", "badmethod", "config_get", "config_get_unknown", "config_put", "config_put_bad", "debug",
+	"create", "create", "pub", "pub", "pub", "mpub", "mpub", "delete_topic", "delete_topic", "empty_topic", "pause_topic", "unpause_topic",
+	"create_channel", "create_channel", "create_channel", "delete_channel", "delete_channel", "empty_channel", "pause_channel", "unpause_channel"}
+
+// random requests against a random startable configuration with random listeners
+func genHTTPCase(r *lib.Rand, k int) CaseIn {
+	cfgs := validCfgs()
+	cfg := cfgs[k%len(cfgs)]
+	cfg.NoHTTPS = r.Chance(35)
+	cfg.NoHTTP = r.Chance(10)
+	refuse := mustRefusePlain(cfg)
+	var ps []ProbeIn
+	for i, m := 0, 6+r.Intn(10); i < m; i++ {
+		p := ProbeIn{Listener: "plain", Kind: pickS(r, probeKinds)}
+		switch x := r.Intn(100); {
+		case x < 30:
+			p.Listener = "https"
+		case x < 50:
+			p.Listener = "direct"
+		}
+		p.Topic = pickS(r, []string{"tA", "tA", "tB", "tC.x"})
+		p.Channel = pickS(r, []string{"x", "x", "y"})
+		switch p.Kind {
+		case "mpub":
+			p.N = 1 + r.Intn(4)
+		case "debug":
+			p.N = r.Intn(debugProfile) // never the CPU profile ...
+			if refuse && p.Listener == "plain" && r.Chance(10) {
+				p.N = debugProfile // ... but where it has to be refused
+			}
+		}
+		if p.Listener == "direct" {
+			// the in-process API has three calls, and validates nothing
+			p.Kind = pickS(r, []string{"create", "pub", "create_channel"})
+		} else {
+			if r.Chance(8) {
+				p.Topic = pickS(r, []string{"bad$", strings.Repeat("a", 65), "sp@ce"})
+			}
+			if r.Chance(8) {
+				p.Channel = pickS(r, []string{"bad$", strings.Repeat("a", 65), "sp@ce"})
 			}
 		}
 		ps = append(ps, p)
@@ -1366,12 +1606,15 @@ func genHTTPCase(r *lib.Rand, k int) CaseIn {
 	return CaseIn{Kind: "http", Profile: "http", Cfg: cfg, Probes: ps}
 }
 
+// every option combination (also those nsqd.New refuses) x the four address settings
 func startCases() []CaseIn {
 	var out []CaseIn
 	for req := 0; req < 3; req++ {
 		for _, cert := range []bool{false, true} {
 			for _, pol := range []string{"", "require", "require-verify"} {
-				out = append(out, CaseIn{Kind: "start", Profile: "start", Cfg: CfgIn{TLSRequired: req, HasCert: cert, Policy: pol, Method: "get"}})
+				for ad := 0; ad < 4; ad++ {
+					out = append(out, CaseIn{Kind: "start", Profile: "start", Cfg: CfgIn{TLSRequired: req, HasCert: cert, Policy: pol, Method: "get", NoHTTP: ad&1 != 0, NoHTTPS: ad&2 != 0}})
+				}
 			}
 		}
 	}
@@ -1411,6 +1654,10 @@ func main() {
 		for k := 0; k < *nhttp; k++ {
 			ins = append(ins, genHTTPCase(r.Fork(), k))
 			names = append(names, fmt.Sprintf("http-%d", k))
+		}
+		for k, c := range httpMatrix() {
+			ins = append(ins, c)
+			names = append(names, fmt.Sprintf("httpmatrix-%d", k))
 		}
 		for k, c := range startCases() {
 			ins = append(ins, c)
